@@ -7,7 +7,8 @@ sys.path.insert(0, os.path.join(VERIF, "lib"))
 import vbuild  # noqa: E402
 
 OUT = os.environ.get("VERIF_OUT") or VERIF   # where evidence/ and replays/ are written (scratch when testing mutants)
-MAX_VIOL_KEPT = 400
+MAX_VIOL_KEPT = 2000
+MAX_PER_SIG = 40
 
 
 def seed_from_env():
@@ -34,6 +35,7 @@ class Stats:
         self.samples = {}            # class -> list of sample cases (few)
         self.violations = []         # dicts: sig, case, expected, got, detail
         self.nviol = 0
+        self.per_sig = {}
         self.notes = {}
 
     def ev(self, n=1):
@@ -55,7 +57,9 @@ class Stats:
 
     def violation(self, sig, case, expected=None, got=None, detail=None):
         self.nviol += 1
-        if len(self.violations) < MAX_VIOL_KEPT:
+        n = self.per_sig.get(sig, 0)
+        self.per_sig[sig] = n + 1
+        if n < MAX_PER_SIG and len(self.violations) < MAX_VIOL_KEPT:
             self.violations.append(dict(sig=sig, case=case, expected=expected, got=got, detail=detail))
 
     def note(self, k, v):
@@ -73,9 +77,15 @@ class Stats:
                 if len(l) < 3:
                     l.append(c)
         self.nviol += o.nviol
+        kept = {}
+        for v in self.violations:
+            kept[v["sig"]] = kept.get(v["sig"], 0) + 1
         for v in o.violations:
-            if len(self.violations) < MAX_VIOL_KEPT:
+            if kept.get(v["sig"], 0) < MAX_PER_SIG and len(self.violations) < MAX_VIOL_KEPT:
                 self.violations.append(v)
+                kept[v["sig"]] = kept.get(v["sig"], 0) + 1
+        for k, n in o.per_sig.items():
+            self.per_sig[k] = self.per_sig.get(k, 0) + n
         for k, v in o.notes.items():
             if isinstance(v, (int, float)) and isinstance(self.notes.get(k), (int, float)):
                 self.notes[k] += v
@@ -249,8 +259,8 @@ def finish(ctx):
     for sig, vs in sorted(new.items()):
         p = write_replay(ctx.pid, vs[0], ctx.seed)
         print("VIOLATION property=%s replay=%s" % (ctx.pid, p))
-        print("  signature=%s cases=%d first=%s expected=%s got=%s" % (
-            sig, len(vs), json.dumps(vs[0]["case"])[:300], str(jsonable(vs[0].get("expected")))[:200], str(jsonable(vs[0].get("got")))[:200]))
+        print("  signature=%s cases=%s first=%s expected=%s got=%s" % (
+            sig, st.per_sig.get(sig, len(vs)), json.dumps(vs[0]["case"])[:300], str(jsonable(vs[0].get("expected")))[:200], str(jsonable(vs[0].get("got")))[:200]))
         if vs[0].get("detail"):
             print("  detail: " + str(vs[0]["detail"])[:1500].replace("\n", "\n    "))
         rc = 1
